@@ -192,7 +192,18 @@ class CoxeterGroup:
 
     """
         num_gens = len(self.generators)
-        rep = Representation()
+
+        # one-character generator names are read off a word character
+        # by character; longer names (generator_style="alphanum") need
+        # words of the form "s0*s1"
+        g_names = [
+            (CoxeterGroup._default_generator_name(i, generator_style)
+             if rename_generators else gen)
+            for i, gen in enumerate(self.ordered_gens)
+        ]
+        rep = Representation(
+            parse_simple=all(len(str(name)) == 1 for name in g_names)
+        )
 
         base_ring, dtype = utils.check_type(**kwargs)
 
